@@ -19,6 +19,10 @@ RULE = ('cases: (a) spectrum of a record through Signal/AccSignal.gen_fa_spectru
 TRUSTED = [
     'Coq 8.16.1 kernel + vm_compute; Coq Interval tactic (proofs checked by the kernel at Qed)',
     'hand-written model coq/lib/Dft.v + coq/model/M_fourier.v; tie = correspondence of this run (model/K_C06.v) + interval goals (harness/ivl.py)',
+    'translator/py2coq_c06.py (re-run on every check) + the C06_*_is_source theorems for the statements around the transform in Signal.gen_fa_spectrum, '
+    'generate_fa_spectrum, calc_fa_spectrum, fas2values, fas2signal (N rule, int(N/2) bins, [range(points)], * dt, the grid, the asserts, the Hermitian completion): '
+    'trusted there is only the translator\'s reading of each whitelisted NumPy / Python call as its list / Z primitive (lib/NpArr.v, lib/NpList.v, lib/PyVal.v; '
+    'np.fft.fft / np.fft.ifft stay parameters, instantiated by the defining sums and measured by the interval goals) and .npts == len(.values)',
     'exact arithmetic (rounding not modelled): NumPy FFT is measured against the defining sum within 1e-12*dt*sum|x|, not proved',
     'Q-run vs R-theorems: same polymorphic definitions; rational twiddle table proved equal to cos/sin where used (C06_twiddle_table)',
     'Python harness (generators, rational encoding, goal emission, parsing)',
@@ -269,8 +273,22 @@ def small_npts(rng, hi=32):
     return rng.randint(2, hi)
 
 
+def regen_c06():
+    """re-translate Signal.gen_fa_spectrum (eqsig/single.py) and generate_fa_spectrum / calc_fa_spectrum / fas2values /
+    fas2signal (eqsig/fns/frequency.py) into coq/gen/Gen_c06.v (fail closed): the `*_is_source` theorems of Prop_C06 are then
+    re-proved against the code that is in the repo now"""
+    import os, sys
+    try:
+        sys.path.insert(0, os.path.join(core.VERIF, 'translator'))
+        import py2coq_c06
+        py2coq_c06.regenerate(repo=core.REPO)
+    except Exception as e:
+        return 'py2coq_c06: %s: %s' % (type(e).__name__, e)
+    return None
+
+
 def run(rep, rng, tier):
-    rep.prove('Prop_C06')
+    rep.prove('Prop_C06', gen_failed=regen_c06())
     quick = tier == 'quick'
     cases, goals, goal_owner = [], [], []
     stats = {'fragile_skipped': 0, 'interval_goals': 0, 'interval_cases': 0}
